@@ -2,4 +2,133 @@
 import DhtVerif.Model.Txn
 namespace Dht
 
+theorem toUInt8_inj_of_lt {a b : Nat} (ha : a < 256) (hb : b < 256)
+    (h : a.toUInt8 = b.toUInt8) : a = b := by
+  have := congrArg UInt8.toNat h
+  simp at this
+  omega
+
+theorem uvarint_inj : ∀ (m n : Nat), uvarint m = uvarint n → m = n := by
+  intro m
+  induction m using Nat.strongRecOn with
+  | _ m ih =>
+    intro n h
+    rw [uvarint.eq_1 m, uvarint.eq_1 n] at h
+    by_cases hm : m < 128 <;> by_cases hn : n < 128 <;> simp only [hm, hn, ↓reduceDIte] at h
+    · have := toUInt8_inj_of_lt (by omega) (by omega) (List.cons.inj h).1
+      exact this
+    · have := toUInt8_inj_of_lt (by omega) (by omega) (List.cons.inj h).1
+      omega
+    · have := toUInt8_inj_of_lt (by omega) (by omega) (List.cons.inj h).1
+      omega
+    · have h1 := toUInt8_inj_of_lt (by omega) (by omega) (List.cons.inj h).1
+      have h2 := ih (m / 128) (by omega) (n / 128) (List.cons.inj h).2
+      omega
+
+/-- Reachability invariant of the dispatcher. -/
+def Txns.Inv (s : Txns) : Prop :=
+  (∀ e ∈ s.pending, ∃ i, i < s.next ∧ e.1.t = uvarint i) ∧
+    s.pending.Pairwise (fun a b => a.1.t ≠ b.1.t)
+
+theorem Txns.inv_empty : Txns.Inv {} := by
+  constructor
+  · intro e he; cases he
+  · exact List.Pairwise.nil
+
+theorem Txns.inv_filter (s : Txns) (p : TxnKey × Nat → Bool) (h : s.Inv) :
+    Txns.Inv { s with pending := s.pending.filter p } := by
+  constructor
+  · intro e he
+    exact h.1 e (List.mem_filter.mp he).1
+  · exact h.2.sublist List.filter_sublist
+
+theorem Txns.have_fresh (s : Txns) (dst : List UInt8) (h : s.Inv) :
+    s.have ⟨uvarint s.next, dst⟩ = false := by
+  unfold Txns.have
+  rw [List.any_eq_false]
+  intro e he heq
+  obtain ⟨i, hi, hti⟩ := h.1 e he
+  have : e.1 = ⟨uvarint s.next, dst⟩ := by simpa using heq
+  rw [this] at hti
+  have := uvarint_inj _ _ hti
+  omega
+
+theorem Txns.register_inv (s : Txns) (q : Nat) (dst : List UInt8) (h : s.Inv) :
+    ∃ r, s.register q dst = some r ∧ r.1.Inv := by
+  unfold Txns.register
+  simp only [Txns.have_fresh s dst h]
+  refine ⟨_, rfl, ?_, ?_⟩
+  · intro e he
+    simp only [List.mem_append, List.mem_singleton] at he
+    rcases he with he | he
+    · obtain ⟨i, hi, hti⟩ := h.1 e he
+      exact ⟨i, by simp only; omega, hti⟩
+    · exact ⟨s.next, by simp only; omega, by rw [he]⟩
+  · simp only
+    rw [List.pairwise_append]
+    refine ⟨h.2, List.pairwise_singleton _ _, ?_⟩
+    intro a ha b hb
+    simp only [List.mem_singleton] at hb
+    obtain ⟨i, hi, hti⟩ := h.1 a ha
+    rw [hb, hti]
+    intro heq
+    have := uvarint_inj _ _ heq
+    omega
+
+theorem Txns.inbound_inv (s : Txns) (src t : List UInt8) (h : s.Inv) :
+    (s.inbound src t).1.Inv := by
+  unfold Txns.inbound
+  simp only
+  split
+  · exact h
+  · exact Txns.inv_filter s _ h
+
+theorem Txns.step_inv (s : Txns) (e : TxnEv) (h : s.Inv) :
+    ∃ r, s.step e = some r ∧ r.1.Inv := by
+  cases e with
+  | register q dst =>
+    obtain ⟨r, hr, hinv⟩ := Txns.register_inv s q dst h
+    exact ⟨(r.1, none), by simp [Txns.step, hr], hinv⟩
+  | inbound src t => exact ⟨_, rfl, Txns.inbound_inv s src t h⟩
+  | deregister k => exact ⟨_, rfl, Txns.inv_filter s _ h⟩
+
+theorem Txns.run_inv : ∀ (evs : List TxnEv) (s : Txns), s.Inv →
+    ∃ s', Txns.run s evs = some s' ∧ s'.Inv := by
+  intro evs
+  induction evs with
+  | nil => intro s h; exact ⟨s, rfl, h⟩
+  | cons e es ih =>
+    intro s h
+    obtain ⟨r, hr, hinv⟩ := Txns.step_inv s e h
+    obtain ⟨s', hs', hinv'⟩ := ih r.1 hinv
+    refine ⟨s', ?_, hinv'⟩
+    simp only [Txns.run, hr]
+    exact hs'
+
+theorem Txns.lookup_eq_none_of_have (s : Txns) (k : TxnKey) (h : s.have k = false) :
+    s.lookup k = none := by
+  unfold Txns.have at h
+  unfold Txns.lookup
+  rw [List.any_eq_false] at h
+  simp only [Option.map_eq_none_iff, List.find?_eq_none]
+  exact h
+
+theorem Txns.lookup_filter_self (s : Txns) (k : TxnKey) :
+    Txns.lookup { s with pending := s.pending.filter (fun e => !(e.1 == k)) } k = none := by
+  unfold Txns.lookup
+  simp only [Option.map_eq_none_iff, List.find?_eq_none, List.mem_filter]
+  intro e he
+  simpa using he.2
+
+theorem Txns.mem_of_lookup (s : Txns) (k : TxnKey) (q : Nat) (h : s.lookup k = some q) :
+    (k, q) ∈ s.pending := by
+  unfold Txns.lookup at h
+  rw [Option.map_eq_some_iff] at h
+  obtain ⟨e, he, hq⟩ := h
+  have hmem := List.mem_of_find?_eq_some he
+  have hk := List.find?_some he
+  have hk' : e.1 = k := by simpa using hk
+  have : e = (k, q) := by rw [← hk', ← hq]
+  rw [← this]; exact hmem
+
 end Dht
